@@ -712,20 +712,58 @@ def adaptive(ctx):
                f"{'min with delta_up_max' if kind == 'up' else 'max with delta_down_max'} is applied on the "
                f"{'positive' if kind == 'up' else 'non-positive'} side of (CBR_target - CBR_ITS-S)" if seen[kind] > 0 and not res["none"]
                else f"a path does not decide the sign of (CBR_target - CBR_ITS-S'): {res['none'][:1]}", fi.loc)
-    # eq 4 as a statement of the source: exactly one store computes the filter, from the offset
-    dstores = [n for n in ast.walk(fi.node) if isinstance(n, ast.Assign) and dotted(n.targets[0]) == "self.delta"]
-    main = [n for n in dstores if any(isinstance(x, ast.Attribute) and x.attr == "alpha" for x in ast.walk(n.value))]
-    ctx.ob("C19.limeric", con, "eq4:present", len(main) == 1, f"{len(main)} store(s) implementing equation 4", fi.loc)
-    for n in main:
-        got = repr(to_poly(P, mod, n.value, _ren))
-        want = repr(to_poly(P, mod, _parse("(1.0 - p.alpha)*self.delta + delta_offset"), _ren))
-        ctx.ob("C19.limeric", con, "eq4:formula", got == want,
-               f"delta' = {got}; clause 5.4 eq. 4: (1 - alpha)*delta + delta_offset", f"{mod.rel}:{n.lineno}")
-    lo, hi = _clamp_sequence(fi, "self.delta")
-    ctx.ob("C19.delta-clamp", con, "upper", norm(_ren(hi or "")) == "p.delta_max",
-           f"value returned is bounded above by `{hi}` (needs p.delta_max)", fi.loc)
-    ctx.ob("C19.delta-clamp", con, "lower", norm(_ren(lo or "")) == "p.delta_min",
-           f"value returned is bounded below by `{lo}` (needs p.delta_min)", fi.loc)
+    # eq 4: on every full path the FIRST value stored into delta is (1 - alpha)*delta + offset, where the offset is what
+    # eq. 3 was checked on above (identity in entry-state terms: names of locals do not matter)
+    n4, bad4 = 0, []
+    for p in full:
+        first = p.stored("self.delta")[0][0]
+        n4 += 1
+        core = L.poly(_parse("(1.0 - self.parameters.alpha) * self.delta"))
+        off = L.poly(first) - core
+        # the remainder must not mention delta or alpha any more (it is the offset term alone)
+        if "self.delta" in repr(off).replace("self.parameters.delta", "") or ".alpha" in repr(off):
+            bad4.append(repr(L.poly(first)))
+    ctx.ob("C19.limeric", con, "eq4:present", n4 > 0, f"{n4} path(s) store the filtered delta", fi.loc)
+    ctx.ob("C19.limeric", con, "eq4:formula", n4 > 0 and not bad4,
+           "delta' = (1 - alpha)*delta + delta_offset on every path" if n4 and not bad4 else
+           f"delta' = {bad4[:1]}; clause 5.4 eq. 4: (1 - alpha)*delta + delta_offset", fi.loc)
+    # final clamp: on every normal path the LAST value stored into delta lies in [delta_min, delta_max]
+    pcls = P.cls(f"{AD}.DccAdaptiveParameters")
+    dmin = P.try_fold(pcls.module, pcls.fields["delta_min"][1]) if "delta_min" in pcls.fields else None
+    dmax = P.try_fold(pcls.module, pcls.fields["delta_max"][1]) if "delta_max" in pcls.fields else None
+    LO, HI = "self.parameters.delta_min", "self.parameters.delta_max"
+
+    def bounded(V, kind, have) -> bool:
+        mine, other = (HI, LO) if kind == "upper" else (LO, HI)
+        cv = sem.cx(V)
+        if cv == sem.cx(_parse(mine)):
+            return True
+        if cv == sem.cx(_parse(other)) and isinstance(dmin, (int, float)) and isinstance(dmax, (int, float)) and dmin <= dmax:
+            return True
+        if isinstance(V, ast.Call) and dotted(V.func) in ("min", "max") and V.args:
+            fn = dotted(V.func)
+            sub = [bounded(a_, kind, have) for a_ in V.args]
+            if (kind == "upper") == (fn == "min"):
+                return any(sub)
+            return all(sub)
+        try:
+            return L.holds(have, f"{unparse(V)} <= {mine}" if kind == "upper" else f"{unparse(V)} >= {mine}")
+        except Exception:
+            return False
+    up_bad, lo_bad = [], []
+    for p in full:
+        have = L.of(p.conds)
+        last = p.stored("self.delta")[-1][0]
+        if not bounded(last, "upper", have):
+            up_bad.append(_ren(unparse(last))[:90])
+        if not bounded(last, "lower", have):
+            lo_bad.append(_ren(unparse(last))[:90])
+    ctx.ob("C19.delta-clamp", con, "upper", bool(full) and not up_bad,
+           "on every path the delta finally stored is bounded above by parameters.delta_max" if full and not up_bad else
+           f"delta can leave [delta_min, delta_max] upwards: finally stored `{up_bad[:1]}`", fi.loc)
+    ctx.ob("C19.delta-clamp", con, "lower", bool(full) and not lo_bad,
+           "on every path the delta finally stored is bounded below by parameters.delta_min" if full and not lo_bad else
+           f"delta can leave [delta_min, delta_max] downwards: finally stored `{lo_bad[:1]}`", fi.loc)
     ctx.floor("C19.limeric", 8)
 
 
